@@ -165,8 +165,9 @@ def gen(seed, thorough=False):
         elif k < 0.88:
             # something writes to the child's fd 2 AFTER the report (atexit handler, interpreter
             # shutdown warnings), with or without a trailing newline
+            inside = rng.random() < 0.35
             plan.append({'site': 'channel', 'ident': lf, 'a': 'noise', 'stream': 'E',
-                         'pos': 0, 'after_report': True,
+                         'pos': 0, 'after_report': not inside, 'in_report': inside,
                          'text': rng.choice(['bye', 'Exception ignored in: <x>\n', '\n',
                                              'sys:1: ResourceWarning: unclosed file\n', '0 0',
                                              'trailing junk \xe9'])})
